@@ -32,6 +32,7 @@
 #include <fstream>
 #include <iostream>
 #include <memory>
+#include <deque>
 
 #include <shark/ObjectiveFunctions/AbstractObjectiveFunction.h>
 #include <shark/ObjectiveFunctions/BoxConstraintHandler.h>
@@ -130,6 +131,17 @@ struct PeekCG : public CG<RealVector> {
 	static unsigned count(CG<RealVector> const& o) { return o.*(&PeekCG::m_count); }
 };
 
+// read access to PRIVATE members (LBFGS, Adam): an explicit template instantiation may name them
+template<class Tag, typename Tag::type M> struct Rob { friend typename Tag::type robGet(Tag) { return M; } };
+#define C10_ROB(TAG, CLASS, TYPE, MEMBER) \
+	struct TAG { typedef TYPE CLASS::*type; friend type robGet(TAG); }; \
+	template struct Rob<TAG, &CLASS::MEMBER>;
+C10_ROB(LbSteps, LBFGS<RealVector>, std::deque<RealVector>, m_steps)
+C10_ROB(LbYs, LBFGS<RealVector>, std::deque<RealVector>, m_gradientDifferences)
+C10_ROB(LbBdiag, LBFGS<RealVector>, double, m_bdiag)
+C10_ROB(LbHist, LBFGS<RealVector>, unsigned int, m_numHist)
+C10_ROB(LbThres, LBFGS<RealVector>, double, m_updThres)
+
 struct PeekBFGS : public BFGS<RealVector> {
 	static RealMatrix const& hessian(BFGS<RealVector> const& o) { return o.*(&PeekBFGS::m_hessian); }
 };
@@ -217,6 +229,17 @@ std::string stateLine(Case& c, Opt& o, bool primary) {
 		CG<RealVector>* cg = dynamic_cast<CG<RealVector>*>(&o);
 		if (cg) s << " " << pre << "cnt=" << PeekCG::count(*cg);
 		BFGS<RealVector>* bf = dynamic_cast<BFGS<RealVector>*>(&o);
+		LBFGS<RealVector>* lb = dynamic_cast<LBFGS<RealVector>*>(&o);
+		if (lb && primary) {
+			// the complete L-BFGS model state: m_numHist, m_bdiag, m_updThres, the two deques (flattened, oldest pair first)
+			std::deque<RealVector> const& hs = (*lb).*robGet(LbSteps());
+			std::deque<RealVector> const& hy = (*lb).*robGet(LbYs());
+			s << " nh=" << (*lb).*robGet(LbHist()) << " bdiag=" << hexd((*lb).*robGet(LbBdiag())) << " thres=" << hexd((*lb).*robGet(LbThres()))
+			  << " hk=" << hs.size() << " hky=" << hy.size() << " hs=";
+			for (std::size_t i = 0; i != hs.size(); ++i) { if (i) s << ","; s << hexv(hs[i]); }
+			s << " hy=";
+			for (std::size_t i = 0; i != hy.size(); ++i) { if (i) s << ","; s << hexv(hy[i]); }
+		}
 		if (bf && primary) {
 			RealMatrix const& Hm = PeekBFGS::hessian(*bf);
 			s << " hess=";
